@@ -128,10 +128,10 @@ def replay(path, E, PTS, beh, work):
     last = beh[-1][1]
     if last.get('mpc') == '"done"':
         from .check_session import store_state
-        rank, has, og = store_state(fn, PTS)
+        rank, has, og, ng = store_state(fn, PTS)
         sav = core.parse_tla_value(last['sav'])
-        if sav['maxp'] != rank or sav['hasomen'] != has:
-            return {'result': 'mismatch', 'detail': {'model_sav': sav, 'real': [rank, has]}}
+        if sav['maxp'] != rank or sav['hasomen'] != has or sav['ng'] != ng:
+            return {'result': 'mismatch', 'detail': {'model_sav': sav, 'real': [rank, has, ng]}}
     return {'result': 'match', 'detail': None}
 
 
